@@ -1,8 +1,8 @@
 /* C05 / C18: merger_get / merger_get_prefix / merger_get_range / merger_iter (real merger.c + real libmy/heap.c):
  * one bounded iterator per source with exactly the caller's bounds, sources without result skipped, NULL iff no source
  * yielded an entry, everything released on the NULL path and by merger_iter_free. */
-#include "/repo/mtbl/merger.c"
-#include "/repo/libmy/heap.c"
+#include "mtbl/merger.c"
+#include "libmy/heap.c"
 #include "spec/ghost.h"
 /* vector growth is a cut point (R12): the heap's vector is created with room for one element (heap_init), so paths on which
  * two sources yield an entry end at the second heap_push; the per-source argument capture happens before that point */
